@@ -2,6 +2,7 @@ package main
 
 import (
 	"fmt"
+	"math"
 	"sort"
 	"strings"
 
@@ -418,6 +419,43 @@ func init() {
 				o, v := chk(e)
 				if v != nil {
 					v.Key = "queue order violated"
+				}
+				return fmt.Sprintf("%s configurations=%d", o, n), v
+			}
+		}})
+	register(&Scenario{Prop: "C10", Name: "rule-order-extreme-priorities", Quick: 0, Thor: 0, FreeQuick: -1, FreeThor: -1, Horizon: 500000000,
+		Desc: "3 rules x priorities {MinInt64, MinInt64+1, -1, 0, 1, MaxInt64-1, MaxInt64}^3 (every add order of every combination) x failing subset (8) x fail-on-first-error (2) = 5488 cases through ProcessEvent: ascending priority, nothing after the first failure when the flag is set",
+		Make: func() (func(), func(e *vsched.Exec) (string, *vsched.Violation)) {
+			var probs []string
+			n := 0
+			body := func() {
+				probs, n = nil, 0
+				seen := map[string]bool{}
+				ext := []int{math.MinInt64, math.MinInt64 + 1, -1, 0, 1, math.MaxInt64 - 1, math.MaxInt64}
+				for _, a := range ext {
+					for _, b := range ext {
+						for _, c := range ext {
+							for mask := 0; mask < 8; mask++ {
+								for _, fofe := range []bool{false, true} {
+									n++
+									for _, p := range c10RuleOrder([3]int{a, b, c}, mask, fofe, false) {
+										k := strings.Fields(p)[0] + strings.Fields(p)[1]
+										if !seen[k] {
+											seen[k] = true
+											probs = append(probs, fmt.Sprintf("%s [priorities %v failing mask %03b fofe=%v]", p, []int{a, b, c}, mask, fofe))
+										}
+									}
+								}
+							}
+						}
+					}
+				}
+			}
+			chk := c15Check(func() []string { return probs })
+			return body, func(e *vsched.Exec) (string, *vsched.Violation) {
+				o, v := chk(e)
+				if v != nil {
+					v.Key = c16Key(v.Key)
 				}
 				return fmt.Sprintf("%s configurations=%d", o, n), v
 			}
